@@ -518,12 +518,36 @@ fn run_case(id: u64, g: &GenCase, ctx: &Ctx, hist: &mut Hist) -> CaseResult {
             },
             Op::Drop(hd) => match objs[*hd].take() {
                 Some(r) => {
-                    let res = catch(std::panic::AssertUnwindSafe(move || drop(r)));
-                    if let Err(m) = res {
-                        e.n(2);
-                        failures.push((format!("dropping a request panicked: {}", m), i));
-                    } else {
+                    // circumstances the statement does not depend on: the application drops the
+                    // request in the ordinary way, while its task unwinds from a panic of its own, or
+                    // after the sender has been put on the ban list
+                    let mode = (id.wrapping_mul(31).wrapping_add(i as u64 * 7)) % 4;
+                    if mode == 2 {
+                        let mut l = discv5::verif::filter::permit_ban_snapshot();
+                        l.ban_nodes.insert(addrs[meta[*hd].1].node_id, None);
+                        l.ban_ips.insert(addrs[meta[*hd].1].socket_addr.ip(), None);
+                        discv5::verif::filter::permit_ban_reset(l);
+                        hist.add("drop:sender_banned");
+                    }
+                    if mode == 1 {
+                        hist.add("drop:while_unwinding");
+                        // (a panic inside Drop during unwinding aborts the process: the harness dies)
+                        let _ = catch(std::panic::AssertUnwindSafe(move || {
+                            let _held = r;
+                            std::panic::resume_unwind(Box::new("application panic"));
+                        }));
                         e.n(3);
+                    } else {
+                        let res = catch(std::panic::AssertUnwindSafe(move || drop(r)));
+                        if let Err(m) = res {
+                            e.n(2);
+                            failures.push((format!("dropping a request panicked: {}", m), i));
+                        } else {
+                            e.n(3);
+                        }
+                    }
+                    if mode == 2 {
+                        discv5::verif::filter::permit_ban_reset(discv5::PermitBanList::default());
                     }
                     if running {
                         want = Some((meta[*hd].0.clone(), meta[*hd].1, vec![]));
